@@ -276,7 +276,7 @@ def gen_doc(rng, k, splits, corner=False):
 # the documented formula, evaluated from the JSON parameters alone (oracle, independent of the package code)
 # =====================================================================================================
 
-def eff_vector(sub):
+def eff_vector(sub, uncross=True):
     """(bp_h', beta_h, k_h, bp_c', beta_c, k_c) of a stored sub-model document: balance points shifted by the smoothing
     length, slope magnitudes, a side switched off when its balance point sits on the end of the fitted range"""
     c, tc = sub["coefficients"], sub["temperature_constraints"]
@@ -302,7 +302,10 @@ def eff_vector(sub):
         if tot > 1:
             ph, pc = ph / tot, pc / tot
         kh, kc = ph * (cbp - hbp), pc * (cbp - hbp)
-        return hbp + kh, bh, kh, cbp - kc, bc, kc
+        hs, cs = hbp + kh, cbp - kc
+        if uncross and hbp <= cbp and cs < hs:
+            cs = hs            # the shifted points meet over the reals; rounding must not cross them
+        return hs, bh, kh, cs, bc, kc
     if s in ("hdd_tidd_smooth", "hdd_tidd"):
         bp = c["hdd_bp"] if s == "hdd_tidd_smooth" else min(max(c["hdd_bp"], lo), hi)
         k = c["hdd_k"] if s == "hdd_tidd_smooth" and c["hdd_beta"] != 0 else 0.0
@@ -327,7 +330,7 @@ def is_crossed(sub):
     smoothing fractions add up to one or more); the kernel then swaps the two sides"""
     if sub["coefficients"]["model_type"] != "hdd_tidd_cdd_smooth":
         return False
-    hbp, bh, kh, cbp, bc, kc = eff_vector(sub)
+    hbp, bh, kh, cbp, bc, kc = eff_vector(sub, uncross=False)
     return hbp > cbp
 
 
